@@ -282,6 +282,38 @@ static void run_ctr(void)
     sample_add("CTR<Skinny128_256_Tweaked>: setKey(K1,16); setIV(00..00 FFFFFF); encrypt(15); encrypt(17); encrypt(33) vs skinny128_ctr (generic back end)");
 }
 
+/* clear(): whatever the object is worth afterwards, it may not depend on the key and tweak it held before.
+ * For every class: setKey(Ka) [+ setTweak(Ta)], a block, clear(), then encrypt and decrypt a block - against the same
+ * with Kb / Tb.  (What a cleared object computes is not specified by the C library; that it has forgotten the key is.) */
+static void run_clear(void)
+{
+    int id, which, dir;
+    for (id = 0; id < 11; ++id) {
+        const Var *v = &VARS[id]; uint8_t res[2][2][16], blk[16], tmp[16];
+        lcg_fill(blk, 16, 7700 + (uint32_t)id);
+        for (which = 0; which < 2; ++which) {
+            BlockCipher *o = fresh_of(id);
+            ++g_cnt.evaluations;
+            if (!o->setKey(KEYS[which], (size_t)v->klen)) { violation("C19/setKey-rejected", "", "%s.setKey returned false", VNAME[id]); delete o; continue; }
+            if (v->tweaked) {
+                BlockCipher *save = cur_obj[id]; cur_obj[id] = o;
+                ard_set_tweak(id, KEYS[1 - which] + 7, (size_t)v->bs);
+                cur_obj[id] = save;
+            }
+            o->encryptBlock(tmp, blk);
+            o->clear();
+            for (dir = 0; dir < 2; ++dir) { if (dir) o->decryptBlock(res[which][dir], blk); else o->encryptBlock(res[which][dir], blk); }
+            delete o;
+        }
+        for (dir = 0; dir < 2; ++dir) if (memcmp(res[0][dir], res[1][dir], (size_t)v->bs) != 0) {
+            char sig[120]; snprintf(sig, sizeof(sig), "C19/%s/clear-keeps-key-dependent-state", VNAME[id]);
+            violation(sig, "", "%s: %s after clear() gives %s when the object held key A before and %s when it held key B: clear() left key-dependent state behind",
+                      VNAME[id], dir ? "decryptBlock" : "encryptBlock", hexs(res[0][dir], (size_t)v->bs), hexs(res[1][dir], (size_t)v->bs));
+        }
+        distinct_add_u64(fnv1a(VNAME[id], strlen(VNAME[id]), 191));
+    }
+}
+
 int main(int argc, char **argv)
 {
     int i;
@@ -300,7 +332,7 @@ int main(int argc, char **argv)
         return finish();
     }
     if (!strcmp(g_opts.sub, "fam")) run_families();
-    else if (!strcmp(g_opts.sub, "hist")) run_histories();
+    else if (!strcmp(g_opts.sub, "hist")) { run_histories(); if (g_opts.shard == 0) run_clear(); }
     else if (!strcmp(g_opts.sub, "ctr")) run_ctr();
     else engine_error("unknown sub");
     return finish();
